@@ -95,6 +95,14 @@ def sites(tree):
         if isinstance(node, ast.keyword) and node.arg in SWAPMAP:
             for j in range(len(SWAPMAP[node.arg])):
                 out.append((path, "kwswap", j))
+        # result / exception operators: a value-returning `return` returns None, a raised exception changes its class, an
+        # except clause catches a different class
+        if isinstance(node, ast.Return) and node.value is not None and not (isinstance(node.value, ast.Constant) and node.value.value is None):
+            out.append((path, "retnone", 0))
+        if isinstance(node, ast.Raise) and isinstance(node.exc, ast.Call) and isinstance(node.exc.func, (ast.Name, ast.Attribute)):
+            out.append((path, "raisewrong", 0))
+        if isinstance(node, ast.ExceptHandler) and node.type is not None and isinstance(node.type, (ast.Name, ast.Attribute)):
+            out.append((path, "exceptswap", 0))
         # ordering operators: a deferred call made directly, a direct notification deferred, two neighbouring statements swapped
         if isinstance(node, ast.Expr) and isinstance(node.value, ast.Call):
             c = node.value
@@ -210,6 +218,21 @@ def mutate(src, path, kind, var):
     elif kind == "argswap":
         desc = "swap first two arguments of " + ast.unparse(node.func)[:40]
         node.args[0], node.args[1] = node.args[1], node.args[0]
+    elif kind == "retnone":
+        desc = "return None instead of " + ast.unparse(node.value)[:50]
+        node.value = ast.Constant(value=None)
+    elif kind == "raisewrong":
+        old_name = ast.unparse(node.exc.func)
+        new_name = "ValueError" if old_name.split(".")[-1] != "ValueError" else "KeyError"
+        desc = f"raise {new_name} instead of {old_name}"
+        node.exc.func = ast.Name(id=new_name, ctx=ast.Load())
+        node.exc.args = node.exc.args[:1]
+        node.exc.keywords = []
+    elif kind == "exceptswap":
+        old_name = ast.unparse(node.type)
+        new_name = "ValueError" if old_name.split(".")[-1] != "ValueError" else "KeyError"
+        desc = f"except {new_name} instead of {old_name}"
+        node.type = ast.Name(id=new_name, ctx=ast.Load())
     elif kind == "undefer":
         c = node.value
         desc = "call directly instead of call_soon: " + ast.unparse(c.args[0])[:50]
@@ -325,7 +348,7 @@ def run_one(args):
     for c in CHECKS:
         try:
             p = subprocess.run([f"{w}/verif/check", c, "--tier", "quick", "--seed", "0"], cwd=f"{w}/verif", env=env2,
-                               capture_output=True, text=True, timeout=900)
+                               capture_output=True, text=True, timeout=400)
             rc = p.returncode
             last = (p.stdout.strip().splitlines() or [""])[-1]
         except subprocess.TimeoutExpired:
